@@ -15,7 +15,7 @@ import concurrent.futures as cf
 import json
 from typing import Any, Callable, Dict, List, Optional
 
-from taskiq import AckableMessage, AsyncBroker, TaskiqMiddleware
+from taskiq import AckableMessage, AsyncBroker, Context, TaskiqDepends, TaskiqMiddleware
 from taskiq.abc.result_backend import AsyncResultBackend
 from taskiq.acks import AcknowledgeType
 from taskiq.exceptions import BrokerError, TaskRejectedError  # noqa: E402
@@ -574,6 +574,31 @@ def register_timing_tasks(broker: ScriptedBroker, tr: Trace, sc: Dict[str, Any])
     AsyncBroker.global_task_registry.pop("swtask", None)
     broker._vt_shared.register_task(swtask_shared, task_name="swtask")  # type: ignore[attr-defined]
 
+    # a name registered BOTH as a shared (global) task - an async function that also takes the Context - and, on the broker itself, as a plain
+    # function of one argument: the broker's own registration wins for everything (which function runs and how its arguments are prepared)
+    async def coltask_shared(i: int, ctx: Context = TaskiqDepends()) -> Any:
+        tr.add("wrong_function", i)
+        return "the shadowed shared function ran"
+
+    async def coltask(i: int) -> Any:
+        return await atask(i)
+
+    coltask_shared.__module__ = coltask.__module__ = __name__
+    AsyncBroker.global_task_registry.pop("coltask", None)
+    broker._vt_shared.register_task(coltask_shared, task_name="coltask")  # type: ignore[attr-defined]
+    broker.register_task(coltask, task_name="coltask")
+
+    # a task function whose return annotation does not match what it returns (annotations are not enforced): what it returned is the result
+    async def annret(i: int) -> int:
+        tr.add("enter", i)
+        try:
+            return ret_value(specs[i], i)  # type: ignore[return-value]
+        finally:
+            tr.add("exit", i)
+
+    annret.__module__ = __name__
+    broker.register_task(annret, task_name="annret")
+
     def _late() -> None:
         broker.register_task(latask, task_name="latask")
         broker.register_task(swtask, task_name="swtask")
@@ -628,7 +653,7 @@ def build_script(broker: ScriptedBroker, sc: Dict[str, Any]) -> List[Any]:
     script = []
     for i, sp in enumerate(sc["msgs"]):
         kind = sp["kind"]
-        tname = sp.get("task") or {"sync": "stask", "shared": "shtask", "late": "latask", "dyn": "dyntask", "plaincls": "cltask", "swapped": "swtask", "retask": "retask"}.get(kind, "atask")
+        tname = sp.get("task") or {"sync": "stask", "shared": "shtask", "late": "latask", "dyn": "dyntask", "plaincls": "cltask", "swapped": "swtask", "retask": "retask", "collide": "coltask", "annret": "annret"}.get(kind, "atask")
         labels = dict(sp.get("labels") or {})
         late = dict(sp.get("late_labels") or {})
         if sp.get("timeout") is not None:
@@ -840,7 +865,7 @@ def timeout_verdict(sp: Dict[str, Any]) -> str:
     """'none' | 'ok' (finishes before the timeout) | 'tie' (finishes exactly at it: either outcome) | 'timeout'.
     The asynchronous clean-up is part of the coroutine the worker waits for."""
     to = sp.get("timeout")
-    if to is None or sp["kind"] not in ("async", "shared", "late", "dyn", "plaincls"):
+    if to is None or sp["kind"] not in ("async", "shared", "late", "dyn", "plaincls", "collide"):
         return "none"
     total = NEVER if sp.get("out") == "never" else sp["dur"] + sp.get("cleanup", 0)
     if abs(total - float(to)) < 1e-9:
@@ -859,7 +884,7 @@ def per_message(trace: List[List[Any]]) -> Dict[Any, List[Any]]:
 
 
 def is_good(sp: Dict[str, Any]) -> bool:
-    return sp["kind"] in ("async", "sync", "shared", "late", "dyn", "plaincls", "swapped", "retask")
+    return sp["kind"] in ("async", "sync", "shared", "late", "dyn", "plaincls", "swapped", "retask", "collide", "annret")
 
 
 def brief_trace(trace: List[List[Any]], limit: int = 60) -> List[Any]:
